@@ -26,7 +26,22 @@ A_RULES = [
     (r'Json item\(json_object_arg\);', 'bool vx_item_existing = false;', 1), (r'return target;', 'vx_returned_target = true; return;', 1), (r'return patch;', 'vx_returned_patch = true; return;', 1),
 ]
 # from_diff: for each member of source: absent in target -> null; present and different -> nested diff; present and equal -> nothing.  For each member of target: absent in source -> copied.
-DIFF1_W = '(vx_erases == 0) && (!vx_found[vx_k] ? (vx_emplaces == 1 && vx_emplaced_null && vx_recursions == 0) : vx_equal[vx_k] ? (vx_emplaces == 0 && vx_recursions == 0) : (vx_emplaces == 1 && vx_recursions == 1 && !vx_emplaced_null))'
+# first loop, judged by what RFC 7386 does with the patch member it produces for a member s of the source whose counterpart in the target is t (absent, or a value without nulls):
+#   no member in the patch: the result keeps s           -> right iff t exists and s == t
+#   null:                   the member is removed        -> right iff t does not exist
+#   t as it is:             MergePatch(s, t)             -> right iff t exists and (s, t are not both objects - then the result is t - or s == t)
+#   from_diff(s, t):        MergePatch(s, from_diff(s,t)) = t by the induction hypothesis (this very property one level down) -> right iff t exists
+#   s as it is:             MergePatch(s, s) = s         -> right iff t exists and s == t
+# whether a nested diff is empty follows from the induction hypothesis too: for two objects it is {} exactly when they are equal; otherwise from_diff returns t itself.
+DIFF1_W = '(vx_first_h == 0 ? (vx_found[vx_k] && vx_equal[vx_k]) : vx_first_h == VX_H_NULL ? !vx_found[vx_k] : vx_first_h == VX_H_TARGET ? (vx_found[vx_k] && (!(vx_s_obj[vx_k] && vx_t_obj[vx_k]) || vx_equal[vx_k])) : vx_first_h == VX_H_DIFF ? vx_found[vx_k] : (vx_found[vx_k] && vx_equal[vx_k]))'
+LOOP_D = '''__CPROVER_assigns(vx_i, vx_cur, vx_emplaces, vx_first_h)
+  __CPROVER_loop_invariant(vx_i <= vx_n && (vx_k >= vx_i ==> (vx_emplaces == 0 && vx_first_h == 0)) && (vx_k < vx_i ==> (%s)))
+  __CPROVER_decreases(vx_n - vx_i)'''
+DIFF1 = [('requires', 'vx_n <= 100000000 && vx_k < vx_n && __CPROVER_is_fresh(vx_equal, vx_n * sizeof(bool)) && __CPROVER_is_fresh(vx_found, vx_n * sizeof(bool)) && __CPROVER_is_fresh(vx_s_obj, vx_n * sizeof(bool)) && __CPROVER_is_fresh(vx_t_obj, vx_n * sizeof(bool)) && __CPROVER_is_fresh(vx_t_empty, vx_n * sizeof(bool)) && vx_emplaces == 0 && vx_first_h == 0'),
+         ('requires', 'vx_equal[vx_k] ==> (vx_s_obj[vx_k] == vx_t_obj[vx_k])'),
+         ('assigns', 'vx_cur, vx_emplaces, vx_first_h'),
+         ('ensures', '[C16] from_diff, members of the source (watched: any): the patch member produced for it (none, null, the target value, the nested diff) is one under which RFC 7386 MergePatch turns the source member into the target member: '
+                     'removed iff the target lacks it, left alone only if equal, the target value as it is only where MergePatch would not merge it with the source value', DIFF1_W)]
 DIFF2_W = '(vx_erases == 0) && (!vx_found[vx_k] ? (vx_emplaces == 1 && vx_emplaced_copy) : vx_emplaces == 0)'
 def DIFF(w, what):
     return [('requires', 'vx_n <= 100000000 && vx_k < vx_n && __CPROVER_is_fresh(vx_equal, vx_n * sizeof(bool)) && __CPROVER_is_fresh(vx_found, vx_n * sizeof(bool)) && vx_erases == 0 && vx_emplaces == 0 && vx_recursions == 0 && !vx_emplaced_null && !vx_emplaced_copy && !vx_order_bad'),
@@ -35,9 +50,11 @@ def DIFF(w, what):
 D_RULES1 = [
     (r'for \(const auto& member : source\.object_range\(\)\)\s*\{', 'for (size_t vx_i = 0; vx_i < vx_n; ++vx_i) { vx_cur = vx_i;', 1),
     (r'auto it = target\.find\(member\.key\(\)\);\s*if \(it != target\.object_range\(\)\.end\(\)\)', 'if (vx_found[vx_i])', 1),
-    (r'member\.value\(\) != \(\*it\)\.value\(\)', '!vx_equal[vx_i]', 1),
-    (r'result\.try_emplace\(member\.key\(\), from_diff\(member\.value\(\), \(\*it\)\.value\(\)\)\);', 'vx_emplace_diff();', 1),
-    (r'result\.try_emplace\(member\.key\(\), Json::null\(\)\);', 'vx_emplace_null();', 1),
+    (r'member\.value\(\) != \(\*it\)\.value\(\)', '!vx_equal[vx_i]', 0, 3), (r'member\.value\(\) == \(\*it\)\.value\(\)', 'vx_equal[vx_i]', 0, 3),
+    (r'\(\*it\)\.value\(\)\.is_object\(\)', 'vx_t_obj[vx_i]', 0, 4), (r'member\.value\(\)\.is_object\(\)', 'vx_s_obj[vx_i]', 0, 4),
+    (r'from_diff\(member\.value\(\), \(\*it\)\.value\(\)\)', 'VX_H_DIFF', 1, 3), (r'Json::null\(\)', 'VX_H_NULL', 1, 2), (r'\(\*it\)\.value\(\)', 'VX_H_TARGET', 0, 3), (r'member\.value\(\)', 'VX_H_SOURCE', 0, 3),
+    (r'\bJson (\w+) = ', r'int \1 = ', 0, 3), (r'std::move\((\w+)\)', r'\1', 0, 3), (r'\b(\w+)\.empty\(\)', r'vx_h_empty(\1)', 0, 3),
+    (r'result\.try_emplace\(member\.key\(\), ([^;]+)\);', r'vx_emplace_h(\1);', 2, 5),
 ]
 D_RULES2 = [
     (r'for \(const auto& member : target\.object_range\(\)\)\s*\{', 'for (size_t vx_i = 0; vx_i < vx_n; ++vx_i) { vx_cur = vx_i;', 1),
@@ -48,8 +65,8 @@ SIG_A = r'Json apply_merge_patch_\(Json& target, const Json& patch\)'
 SIG_D = r'Json from_diff\(const Json& source, const Json& target\)'
 SPECS = [
     FuncSpec('apply_merge_patch_level', M, SIG_A, count=1, csig='void apply_merge_patch_level(void)', contract=APPLY, rules=A_RULES, loops={0: LOOP % APPLY_W, 'count': 1}),
-    FuncSpec('from_diff_source_loop', M, SIG_D, count=1, csig='void from_diff_source_loop(void)', contract=DIFF(DIFF1_W, 'from_diff, members of the source (watched: any): a member that the target lacks becomes null in the patch; one that differs becomes the nested diff; one that is equal is left out'),
-             rules=D_RULES1, slice_from=r'for \(const auto& member : source\.object_range\(\)\)', slice_to=r'for \(const auto& member : target\.object_range\(\)\)', loops={0: LOOP % DIFF1_W, 'count': 1}),
+    FuncSpec('from_diff_source_loop', M, SIG_D, count=1, csig='void from_diff_source_loop(void)', contract=DIFF1,
+             rules=D_RULES1, slice_from=r'for \(const auto& member : source\.object_range\(\)\)', slice_to=r'for \(const auto& member : target\.object_range\(\)\)', loops={0: LOOP_D % DIFF1_W, 'count': 1}),
     FuncSpec('from_diff_target_loop', M, SIG_D, count=1, csig='void from_diff_target_loop(void)', contract=DIFF(DIFF2_W, 'from_diff, members of the target (watched: any): a member that the source lacks is copied into the patch; the others were handled by the first loop'),
              rules=D_RULES2, slice_from=r'for \(const auto& member : target\.object_range\(\)\)', slice_to=r'return result;', loops={0: LOOP % DIFF2_W, 'count': 1}),
 ]
